@@ -132,6 +132,9 @@ def main(a, seed):
     cfgs.append(dict(P=2, H=1, LMAX=1, Ks=(44,), tmo=1800, claim=False))
   else:
     cfgs.append(dict(P=2, H=0, LMAX=1, Ks=(30,), tmo=90, claim=False, hunt=True))
+    # three control calls, one chunk: bug hunting for shutdown problems within 40 steps (this is what found
+    # pause; stop; pause; close(wait=True)), nothing claimed in the quick tier
+    cfgs.append(dict(P=1, H=3, LMAX=1, Ks=(40,), tmo=120, claim=False, hunt=True, queries=["deadlock_wait", "deadlock_nowait"]))
   all_results, inconcl, errors, viol = [], [], [], []
   validated = 0
   samples_out = []
@@ -163,7 +166,7 @@ def main(a, seed):
       else:
         K = cfg["Ks"][0]
       # 2. the property queries, in parallel
-      jobs = [(path, P, LMAX, H, K, q, cfg["tmo"]) for q in QUERIES]
+      jobs = [(path, P, LMAX, H, K, q, cfg["tmo"]) for q in cfg.get("queries", QUERIES)]
       for r in pool.imap_unordered(_query, jobs):
         all_results.append(r)
         if r["result"] == "unsat": continue
